@@ -1,0 +1,233 @@
+//go:build verif
+
+package nject
+
+// Verification hooks.  Compiled only with -tags verif; see verif_off.go for
+// the no-op twins.  These export plain-data mirrors of internal state so an
+// external harness can compare the stages of Bind with a formal model.
+
+import (
+	"reflect"
+	"sort"
+	"sync"
+)
+
+// VerifProvider is a plain-data mirror of *provider.
+type VerifProvider struct {
+	ID                  int32
+	Origin              string
+	Index               int
+	Class               string
+	Group               string
+	Flows               [5][]reflect.Type // returns, outputs, inputs, received, bypass
+	Include             bool
+	CannotInclude       string
+	WhyIncluded         string
+	DownRmap            [][2]reflect.Type
+	UpRmap              [][2]reflect.Type
+	BypassRmap          [][2]reflect.Type
+	MustZeroSkipped     []reflect.Type
+	MustZeroInner       []reflect.Type
+	VmapCount           int
+	Memoized            bool
+	Parallel            bool
+	Required            bool
+	Desired             bool
+	Shun                bool
+	Reorder             bool
+	NonFinal            bool
+	Cacheable           bool
+	MustCache           bool
+	NotCacheable        bool
+	Memoize             bool
+	Singleton           bool
+	CallsInner          bool
+	Wanted              bool
+	Cluster             int32
+	Synthetic           bool
+	Loose               []reflect.Type
+	MustConsume         []reflect.Type
+	ConsumptionOptional []reflect.Type
+	ShadowingAllowed    []reflect.Type
+	ReplaceByName       string
+	InsertBeforeName    string
+	InsertAfterName     string
+	Fn                  any
+}
+
+// VerifDump is what a hook call site hands to the registered callback.
+type VerifDump struct {
+	Stage       string
+	Real        bool
+	Funcs       []VerifProvider
+	InvokeIndex int
+	DownVmap    map[reflect.Type]int
+	UpVmap      map[reflect.Type]int
+	VCount      int
+	HasInit     bool
+}
+
+var (
+	verifMu      sync.RWMutex
+	verifHookFn  func(VerifDump)
+	verifYieldFn func(string)
+)
+
+// SetVerifHooks registers (or, with nil, clears) the callbacks.
+func SetVerifHooks(dump func(VerifDump), yield func(string)) {
+	verifMu.Lock()
+	verifHookFn = dump
+	verifYieldFn = yield
+	verifMu.Unlock()
+}
+
+func verifYield(point string) {
+	verifMu.RLock()
+	f := verifYieldFn
+	verifMu.RUnlock()
+	if f != nil {
+		f(point)
+	}
+}
+
+func verifTypes(tcs []typeCode) []reflect.Type {
+	out := make([]reflect.Type, len(tcs))
+	for i, tc := range tcs {
+		out[i] = tc.Type()
+	}
+	return out
+}
+
+func verifSet(m map[typeCode]struct{}) []reflect.Type {
+	tcs := make([]typeCode, 0, len(m))
+	for tc := range m {
+		tcs = append(tcs, tc)
+	}
+	sort.Slice(tcs, func(i, j int) bool { return tcs[i] < tcs[j] })
+	return verifTypes(tcs)
+}
+
+func verifRmap(m map[typeCode]typeCode) [][2]reflect.Type {
+	tcs := make([]typeCode, 0, len(m))
+	for tc := range m {
+		tcs = append(tcs, tc)
+	}
+	sort.Slice(tcs, func(i, j int) bool { return tcs[i] < tcs[j] })
+	out := make([][2]reflect.Type, len(tcs))
+	for i, tc := range tcs {
+		out[i] = [2]reflect.Type{tc.Type(), m[tc].Type()}
+	}
+	return out
+}
+
+func verifVmap(m map[typeCode]int) map[reflect.Type]int {
+	if m == nil {
+		return nil
+	}
+	out := make(map[reflect.Type]int, len(m))
+	for tc, i := range m {
+		out[tc.Type()] = i
+	}
+	return out
+}
+
+func verifProvider(fm *provider) VerifProvider {
+	if fm == nil {
+		return VerifProvider{ID: -1}
+	}
+	vp := VerifProvider{
+		ID:                  fm.id,
+		Origin:              fm.origin,
+		Index:               fm.index,
+		Class:               fm.class.String(),
+		Group:               fm.group.String(),
+		Include:             fm.include,
+		WhyIncluded:         fm.whyIncluded,
+		DownRmap:            verifRmap(fm.downRmap),
+		UpRmap:              verifRmap(fm.upRmap),
+		BypassRmap:          verifRmap(fm.bypassRmap),
+		MustZeroSkipped:     verifTypes(fm.mustZeroIfRemainderSkipped),
+		MustZeroInner:       verifTypes(fm.mustZeroIfInnerNotCalled),
+		VmapCount:           fm.vmapCount,
+		Memoized:            fm.memoized,
+		Parallel:            fm.parallel,
+		Required:            fm.required,
+		Desired:             fm.desired,
+		Shun:                fm.shun,
+		Reorder:             fm.reorder,
+		NonFinal:            fm.nonFinal,
+		Cacheable:           fm.cacheable,
+		MustCache:           fm.mustCache,
+		NotCacheable:        fm.notCacheable,
+		Memoize:             fm.memoize,
+		Singleton:           fm.singleton,
+		CallsInner:          fm.callsInner,
+		Wanted:              fm.wanted,
+		Cluster:             fm.cluster,
+		Synthetic:           fm.isSynthetic,
+		Loose:               verifSet(fm.loose),
+		MustConsume:         verifSet(fm.mustConsume),
+		ConsumptionOptional: verifSet(fm.consumptionOptional),
+		ShadowingAllowed:    verifSet(fm.shadowingAllowed),
+		ReplaceByName:       fm.replaceByName,
+		InsertBeforeName:    fm.insertBeforeName,
+		InsertAfterName:     fm.insertAfterName,
+		Fn:                  fm.fn,
+	}
+	if fm.cannotInclude != nil {
+		vp.CannotInclude = fm.cannotInclude.Error()
+	}
+	for i := range fm.flows {
+		vp.Flows[i] = verifTypes(fm.flows[i])
+	}
+	return vp
+}
+
+func verifDump(stage string, isReal bool, funcs []*provider, invokeIndex int, downVmap, upVmap map[typeCode]int, vCount int, initF *provider) {
+	verifMu.RLock()
+	f := verifHookFn
+	verifMu.RUnlock()
+	if f == nil {
+		return
+	}
+	d := VerifDump{
+		Stage:       stage,
+		Real:        isReal,
+		Funcs:       make([]VerifProvider, len(funcs)),
+		InvokeIndex: invokeIndex,
+		DownVmap:    verifVmap(downVmap),
+		UpVmap:      verifVmap(upVmap),
+		VCount:      vCount,
+		HasInit:     initF != nil,
+	}
+	for i, fm := range funcs {
+		d.Funcs[i] = verifProvider(fm)
+	}
+	f(d)
+}
+
+// VerifIDs lists the provider ids of a collection's (flattened) contents.
+func VerifIDs(c *Collection) []int32 {
+	out := make([]int32, len(c.contents))
+	for i, fm := range c.contents {
+		out[i] = fm.id
+	}
+	return out
+}
+
+// VerifContents mirrors a collection's (flattened) contents.
+func VerifContents(c *Collection) []VerifProvider {
+	out := make([]VerifProvider, len(c.contents))
+	for i, fm := range c.contents {
+		out[i] = verifProvider(fm)
+	}
+	return out
+}
+
+// VerifProviderOf mirrors a single Provider (nil,false if p is a Collection).
+func VerifProviderOf(p Provider) (VerifProvider, bool) {
+	if fm, ok := p.(*provider); ok {
+		return verifProvider(fm), true
+	}
+	return VerifProvider{}, false
+}
